@@ -87,6 +87,11 @@ EDITS = {
  "E47-productsAreEqual-via-bits": [("internal_clipper.go", "	mulAB := multiplyUInt64(absA, absB)\n	mulCD := multiplyUInt64(absC, absD)\n", "	var mulAB, mulCD UInt128Struct\n	mulAB.Hi64, mulAB.Lo64 = bits.Mul64(absA, absB)\n	mulCD.Hi64, mulCD.Lo64 = bits.Mul64(absC, absD)\n")],
  "E48-hasOpenPaths-sticky-or": [("clipper_base.go", "	if isOpen {\n		c.hasOpenPaths = true\n	}\n\n	c.isSortedMinimaList = false", "	c.hasOpenPaths = c.hasOpenPaths || isOpen\n\n	c.isSortedMinimaList = false")],
  "E49-tidyEdgePair-old-owner-local": [("rect_clip.go", "			r.results[p2.ownerIdx] = nil\n			setNewOwner(p2, p1.ownerIdx)", "			oldOwner := p2.ownerIdx\n			setNewOwner(p2, p1.ownerIdx)\n			r.results[oldOwner] = nil")],
+ "E50-inline-isJoined-updateEdgeIntoAEL": [("clipper_base.go", "	setDx(ae)\n\n	if isJoined(ae) {\n		c.split(ae, ae.bot)\n	}", "	setDx(ae)\n\n	if ae.joinWith != JoinNone {\n		c.split(ae, ae.bot)\n	}")],
+ "E51-inline-helpers-getPrevHotEdge": [("engine.go", "	for prev != nil && (isOpen(prev) || !isHotEdge(prev)) {", "	for prev != nil && (prev.localMin.IsOpen || prev.outrec == nil) {")],
+ "E52-inline-isHotEdge-intersectEdges": [("@rename-text", "clipper_base.go", "func (c *clipperBase) intersectEdges(", {"isHotEdge(ae1)": "(ae1.outrec != nil)", "isHotEdge(ae2)": "(ae2.outrec != nil)", "isJoined(ae1)": "(ae1.joinWith != JoinNone)", "isJoined(ae2)": "(ae2.joinWith != JoinNone)"})],
+ "E53-inline-polytype-setWindCount": [("@rename-text", "clipper_base.go", "func (c *clipperBase) setWindCountForClosedPathEdge(", {"getPolyType(ae2) != pt": "ae2.localMin.PolyType != pt", "isOpen(ae2)": "ae2.localMin.IsOpen", "pt := getPolyType(ae)": "pt := ae.localMin.PolyType"})],
+ "E54-inline-isOpen-buildTree-doHorizontal": [("@rename-text", "clipper_base.go", "func (c *clipperBase) insertLeftEdge(", {"ae2.joinWith == JoinRight": "JoinRight == ae2.joinWith"})],
  "E18-comment-and-blank-lines": [("rect_clip.go", "func (r *RectClip64) getNextLocation(path Path64, loc *Location, i *int, highI int) {\n	switch *loc {", "// getNextLocation advances i to the next vertex that leaves the current location.\nfunc (r *RectClip64) getNextLocation(path Path64, loc *Location, i *int, highI int) {\n\n	switch *loc {")],
 }
 def main():
@@ -96,11 +101,24 @@ def main():
         d = tempfile.mkdtemp(prefix="eq.")
         a, b = os.path.join(d, "a"), os.path.join(d, "b")
         os.makedirs(a); os.makedirs(b)
-        files = sorted(set((e[1] if e[0] == "@rename" else e[0]) for e in edits))
+        files = sorted(set((e[1] if e[0] in ("@rename", "@rename-text") else e[0]) for e in edits))
         for f in files:
             shutil.copy("/repo/" + f, a); shutil.copy("/repo/" + f, b)
         ok = True
         for e in edits:
+            if e[0] == "@rename-text":
+                _, f, hdr, ren = e
+                s = open(os.path.join(b, f)).read()
+                if s.count(hdr) != 1:
+                    print(name, "FUNC NOT FOUND (count=%d) %s" % (s.count(hdr), hdr)); ok = False; break
+                st = s.index(hdr); en = s.index("\n}\n", st) + 3
+                body = s[st:en]
+                for o, n in ren.items():
+                    if o not in body:
+                        print(name, "TEXT NOT FOUND %s" % o); ok = False
+                    body = body.replace(o, n)
+                open(os.path.join(b, f), "w").write(s[:st] + body + s[en:])
+                continue
             if e[0] == "@rename":
                 _, f, hdr, ren = e
                 s = open(os.path.join(b, f)).read()
